@@ -186,7 +186,7 @@ func c17CanonGen(t *rapid.T) c17Canon {
 	}
 }
 
-var c17BadSup = []string{"garbage", "wrong-slot", "non-validator", "other-link", "unused-slot"}
+var c17BadSup = []string{"garbage", "wrong-slot", "non-validator", "other-link", "unused-slot", "unknown-source", "wrong-source-height"}
 
 func c17CanonExec(c c17Canon, x *pbt.Ctx) error {
 	if c.N < 1 || c.N > 10 || c.Epoch < 2 || c.K1 < 0 || c.K1 > c.N || c.K2 < 0 || c.K2 > c.N {
